@@ -80,6 +80,14 @@ CHECKS = {
         technique='PrintHistory.tla (Render leaves objs unchanged) model-checked; all TLC-generated format sequences replayed on one persistent result object, snapshots and outputs trace-validated (PrintTrace.tla, stateful)',
         text='TLC enumerates all sequences of 3 formats over 12 formats; each (sampled in quick, all in thorough, plus longer random ones) is replayed on one real result object; after every rendering the projection of all trees / categories / tokens must equal the one before it and the output must equal that of a fresh copy',
         ref='6/C18'),
+    'C07': dict(
+        technique='per-format decoding semantics in TLA+ (Formats.tla: spellings, tree comparison, CoNLL dependencies from head flags, deriv interval-stack decoding, Jigg reference resolution and tiling, Prolog terms); outputs of the real encoders lexed by independent lexers and trace-validated by RenderTrace.tla',
+        text='one parse result (1-3 sentences x 1-3 best; grammar-licensed and arbitrary trees; awkward tokens) is rendered by the real to_string in all 11 formats; each document is lexed without depccg code and TLC decides field by field (words, shape, categories, labels/symbols, head flags, token attributes, offsets, numbering, CoNLL heads) whether it denotes the derivation that was rendered',
+        ref='6/C07'),
+    'C19': dict(
+        technique='label vocabularies covered from the real rule functions; every CLI-offered format rendered for every label, every shipped unary entry, random licensed batches and the real failure placeholder (alone and inside batches); outcomes trace-validated by RenderTrace.tla (no exception; other sentences still decode via Formats.tla)',
+        text='format lists are read from depccg/argparse.py; one derivation per (label, symbol) returned by the real en/ja rule functions and per shipped unary-table entry (vacuity guard: all expected labels must occur), random grammar-licensed batches, and the placeholder obtained from a real failing parse at every batch position; a rendering must not raise and the remaining sentences must decode to their derivations',
+        ref='6/C19'),
 }
 NOT_YET = 'check not built yet (build in progress; see DESIGN.md section 12)'
 
